@@ -88,6 +88,7 @@ def rule_poll(fx, rep):
 
 
 GO_FIELDS = ("wtime", "btime", "winc", "binc", "movestogo", "movetime")
+GO_EXTRA = ("depth", "nodes", "infinite", "ponder")   # further arguments a selection may look at (optional values and flags)
 
 
 def presence_of(e, val, fx=None):
@@ -108,9 +109,11 @@ def presence_of(e, val, fx=None):
 
     def go_field(x):
         x = deep_strip(x)
-        if isinstance(x, tuple) and len(x) == 3 and x[0] == "field" and x[2] in GO_FIELDS:
+        if isinstance(x, tuple) and len(x) == 3 and x[0] == "field" and x[2] in GO_FIELDS + GO_EXTRA:
             return x[2]
         return None
+    if go_field(d) in ("infinite", "ponder"):
+        return ("lit", go_field(d), bool(truth))       # a bool flag of the command, tested directly
     if d[0] == "discr" and go_field(d[1]):
         return ("lit", go_field(d[1]), bool(truth))      # Option: None = 0, Some = 1
     if d[0] == "call" and isinstance(d[1], str) and d[1].endswith("Option::is_some") and go_field(d[2][0]):
@@ -142,7 +145,7 @@ def holds(con, c):
     return False
 
 
-def rule_select(fx, rep):
+def rule_select(fx, rep, rid="C14-SELECT", untimed=False):
     """Which time control a `go` command gets: with a clock for either side (wtime / btime) it is Clocks; with a move time and
     no clock it is ExactTime - "a fixed move time is used as given". Decided by enumerating the paths of the go handler from
     the arm's entry to the TimeStrategy::new call (and through a selection helper, if any) together with the presence
@@ -153,14 +156,14 @@ def rule_select(fx, rep):
     entry, region = arms["Go"]
     stops = {bb for bb, t in ex.calls_to("TimeStrategy::new") if bb in region}
     if len(stops) != 1:
-        rep.notes.append("C14-SELECT: the go handler does not call TimeStrategy::new exactly once; clause not decided")
-        rep.rule("C14-SELECT", 0, 0, True, "not decided")
+        rep.notes.append(rid + ": the go handler does not call TimeStrategy::new exactly once; clause not decided")
+        rep.rule(rid, 0, 0, True, "not decided")
         return
     sbb = next(iter(stops))
     paths = decision_paths(ex, 3000, start=entry, stop=stops)
     if not paths or len(paths) >= 3000:
-        rep.notes.append("C14-SELECT: too many / no paths from the go arm to TimeStrategy::new; clause not decided")
-        rep.rule("C14-SELECT", 0, 0, True, "not decided")
+        rep.notes.append(rid + ": too many / no paths from the go arm to TimeStrategy::new; clause not decided")
+        rep.rule(rid, 0, 0, True, "not decided")
         return
     outcomes = []  # (constraints, variant)
     undecided = False
@@ -203,23 +206,26 @@ def rule_select(fx, rep):
         undecided = True
         break
     if undecided or not outcomes:
-        rep.notes.append("C14-SELECT: the selection of the time control tests something other than the presence of go arguments (or is in a form not modelled); clause not decided")
-        rep.rule("C14-SELECT", 0, 0, True, "not decided")
+        rep.notes.append(rid + ": the selection of the time control tests something other than the presence of go arguments (or is in a form not modelled); clause not decided")
+        rep.rule(rid, 0, 0, True, "not decided")
         return
     ok = True
     n = 0
     seen_bad = set()
     covered = 0
-    for combo in itertools.product([False, True], repeat=len(GO_FIELDS)):
-        c = dict(zip(GO_FIELDS, combo))
+    allf = GO_FIELDS + GO_EXTRA
+    for combo in itertools.product([False, True], repeat=len(allf)):
+        c = dict(zip(allf, combo))
         variants = {v for cons, v in outcomes if all(holds(k, c) for k in cons)}
         if len(variants) != 1:
             # the modelled paths do not partition this input (should not happen for a deterministic handler): not decided
             continue
         covered += 1
         variant = next(iter(variants))
-        want = "Clocks" if (c["wtime"] or c["btime"]) else ("ExactTime" if c["movetime"] else None)
+        want = "Clocks" if (c["wtime"] or c["btime"]) else ("ExactTime" if c["movetime"] else ("Infinite" if untimed else None))
         if want is None:
+            continue
+        if untimed and want != "Infinite":
             continue
         n += 1
         good = variant == want
@@ -227,14 +233,15 @@ def rule_select(fx, rep):
         if not good and (variant, want) not in seen_bad:
             seen_bad.add((variant, want))
             ok = False
-            given = [f for f in GO_FIELDS if c[f]]
-            rep.violation("C14-SELECT", f"C14-SELECT/{want}-as-{variant}", f"`go` with {given} is searched under TimeControl::{variant}; expected {want} "
-                          + ("(a fixed move time must be used as given)" if want == "ExactTime" else "(a clock for either side must be honoured)"),
+            given = [f for f in allf if c[f]]
+            rep.violation(rid, f"{rid}/{want}-as-{variant}", f"`go` with {given} is searched under TimeControl::{variant}; expected {want} "
+                          + ("(a fixed move time must be used as given)" if want == "ExactTime" else "(a clock for either side must be honoured)" if want == "Clocks" else
+                             "(no time argument was given: the search must not be given a time limit, or a depth-limited search depends on the clock)"),
                           {"fn": ex.name, "file": ex.file, "line": ex.blocks[sbb]["term"].get("line")})
-    if covered < 64:
-        rep.notes.append(f"C14-SELECT: only {covered} of 64 argument combinations map to a unique modelled path")
-    rep.sample({"rule": "C14-SELECT", "paths": len(paths), "outcomes": [([str(k) for k in p], v2) for p, v2 in outcomes][:8]})
-    rep.rule("C14-SELECT", n, 40, ok, "time control selected from the presence of go arguments (all completions)")
+    if covered < 2 ** len(allf):
+        rep.notes.append(rid + f": only {covered} of {2 ** len(allf)} argument combinations map to a unique modelled path")
+    rep.sample({"rule": rid, "paths": len(paths), "outcomes": [([str(k) for k in p], v2) for p, v2 in outcomes][:8]})
+    rep.rule(rid, n, 40 if not untimed else 8, ok, "time control selected from the presence of go arguments (all completions)")
 
 
 def arm_of(fx, body, bb, argidx, adt):
